@@ -108,7 +108,7 @@ pub fn record_execution(rng: &mut Rng, params: &ExecParams) -> Execution {
         if roll < 55 {
             counter += 1;
             let k = rng.pick(&pool).clone();
-            let v = if params.values_longer_than_a_block && rng.chance(0.08) {
+            let v = if params.values_longer_than_a_block && rng.chance(0.2) {
                 let extra = rng.below(60) as usize;
                 gen::tagged_value(rng, &format!("v{counter}:"), params.cfg.block + 40 + extra)
             } else if params.big_values && rng.chance(0.04) {
